@@ -131,7 +131,7 @@ package auth
 // after init (also when re-run by CopyFrom) nothing is left over from earlier rights: the number of matchers
 // equals the number of masks of the access string as it is now; an administrator with an empty right gets "*"
 //@ func (u *User) init() (err error)
-//@   requires u != nil && len(u.pushMatchers) <= 1<<20 && len(u.pullMatchers) <= 1<<20
+//@   requires u != nil
 //@   modifies u.Name, u.PullAccess, u.PushAccess, u.pushMatchers, u.pullMatchers, anyElems(u.pushMatchers)
 //@   ensures err == nil
 //@   ensures len(u.pushMatchers) == nonEmptyMasks(u.PushAccess) && len(u.pullMatchers) == nonEmptyMasks(u.PullAccess)
@@ -145,7 +145,7 @@ package auth
 
 // update: the password changes only when asked; the rights are those of src, compiled afresh
 //@ func (u *User) CopyFrom(src *User, withPassword bool) ()
-//@   requires u != nil && src != nil && len(u.pushMatchers) <= 1<<20 && len(u.pullMatchers) <= 1<<20
+//@   requires u != nil && src != nil
 //@   modifies u.Password, u.Admin, u.PushAccess, u.PullAccess, u.Name, u.pushMatchers, u.pullMatchers, anyElems(u.pushMatchers)
 //@   ensures withPassword ==> sameStr(u.Password, old(src.Password))
 //@   ensures !withPassword && u != src ==> sameStr(u.Password, old(u.Password))
@@ -181,6 +181,25 @@ package auth
 //@   ensures old(m.m[final(userName)]) != nil ==> m.m[final(userName)] == nil && len(m.removes) == old(len(m.removes)) + 1 && m.removes[old(len(m.removes))] == old(m.m[final(userName)])
 //@   ensures old(m.m[final(userName)]) != nil ==> len(m.l) <= old(len(m.l)) && len(m.l) >= old(len(m.l)) - 1 && len(m.saves) <= old(len(m.saves))
 //@   ensures old(m.m[final(userName)]) == nil ==> len(m.removes) == old(len(m.removes)) && len(m.saves) == old(len(m.saves)) && len(m.l) == old(len(m.l))
+
+// Save: afterwards the table resolves the (lower-cased) user name to an entry that carries the saved rights and admin flag -
+// whether the name was present (updated in place; the password changes only when asked), absent, or deleted since the
+// last flush (a new entry, never a revived old one); the list grows by exactly the new entry or not at all
+//@ func (m *manager) Save(newu *User, updatePassword bool) (err error)
+// (newu is a value the caller built - from JSON, from the default admin - never an entry of the table itself)
+//@   requires mgrOK(m) && newu != nil && forallk(kk, mapKeyPresent(m.m, kk) ==> mapValAtKey(m.m, kk).(*User) != newu)
+//@   modifies held(&m.lock), ghostInt(&m.lock, "sections"), m.l, m.l[:cap(m.l)], m.saves, m.saves[:cap(m.saves)], m.removes, m.removes[:cap(m.removes)], mapAll(m.m), anyFld((*User)(nil).Name), anyFld((*User)(nil).Password), anyFld((*User)(nil).Admin), anyFld((*User)(nil).PushAccess), anyFld((*User)(nil).PullAccess), anyFld((*User)(nil).pushMatchers), anyFld((*User)(nil).pullMatchers), anyElems(newu.pushMatchers)
+//@   local rangeindex int
+//@   loop 0: modifies
+//@   loop 0: invariant -1 <= rangeindex && rangeindex <= len(m.saves) && sameHdr(m.saves, old(m.saves))
+//@   loop 1: modifies
+//@   loop 1: invariant -1 <= rangeindex && rangeindex <= len(m.removes) && sameHdr(m.removes, old(m.removes))
+//@   ensures !held(&m.lock) && err == nil
+//@   ensures m.m[newu.Name] != nil && m.m[newu.Name].Admin == newu.Admin
+//@   ensures !(newu.Admin && len(newu.PullAccess) == 0) ==> sameStr(m.m[newu.Name].PullAccess, newu.PullAccess)
+//@   ensures !(newu.Admin && len(newu.PushAccess) == 0) ==> sameStr(m.m[newu.Name].PushAccess, newu.PushAccess)
+//@   ensures len(m.l) == old(len(m.l)) || (len(m.l) == old(len(m.l)) + 1 && m.l[old(len(m.l))] == newu && m.m[newu.Name] == newu)
+//@   ensures len(m.saves) >= old(len(m.saves)) && len(m.removes) <= old(len(m.removes))
 
 // Flush: hands the full list and the pending changes to the provider; the pending lists are cleared only on success
 //@ extern func (p UserProvider) Flush(full []*User, saves []*User, removes []*User) (err error)
